@@ -38,6 +38,13 @@ def run(ctx):
                 if not rr["ok"] and "bytes-after-login" in rr.get("sig", ""):
                     ctx.violation("C20:channel-open:requeue-order", rr["detail"], dict(rp, kind="login"))
             return
+        if rp.get("kind") == "chan":
+            rp.pop("kind")
+            for rr in ctx.run_harness("c20chan", [rp]):
+                ctx.count()
+                if not rr["ok"]:
+                    ctx.violation(rr["sig"], rr["detail"], dict(rp, kind="chan"))
+            return
         if rp.get("kind") == "trace":
             lines = [json.dumps(e) for e in rp["trace"]]
             validate_traces(ctx, "QueueTrace", lines, "C20:stress:not-linearizable", "replayed history")
@@ -118,6 +125,19 @@ def run(ctx):
         if not rr["ok"] and "bytes-after-login" in rr.get("sig", ""):
             sc = logins[rr["id"]]
             ctx.violation("C20:channel-open:requeue-order", "what the login read was not put back in front of the queue: " + rr["detail"], dict(sc, kind="login"))
+    # 5. the queue as the channel's read loop feeds it: the producer far ahead of the consumer (enqueue x N, then dequeue x N or
+    #    dequeue-all), through a transport that hands out the same buffer on every Read - a held chunk is the chunk produced
+    chans = [{"style": st, "take": tk, "n": n, "reuse": ru} for st in ("plain", "cr", "esc", "mixed") for tk in ("read", "readall") for ru in (True, False) for n in (3, 40)]
+    res = ctx.run_harness("c20chan", chans, timeout=600)
+    if len(res) != len(chans):
+        raise ToolError("c20chan answered %d of %d; stderr:\n%s" % (len(res), len(chans), ctx.last_stderr[-2000:]))
+    for rr in res:
+        ctx.count()
+        ctx.nontriv("chan:" + rr["variant"] + str(chans[rr["id"]]["n"]))
+        if rr.get("sig") == "TOOL":
+            raise ToolError(rr.get("detail"))
+        if not rr["ok"]:
+            ctx.violation(rr["sig"], rr["detail"], dict(chans[rr["id"]], kind="chan"))
     for rep in ctx.race_reports:
         if "util/queue.go" in rep or "util.(*Queue)" in rep:
             ctx.violation("C20:race:queue", "race detector report involving util.Queue:\n" + rep[:1500],
